@@ -162,3 +162,5 @@ Section Wrappers.
     length (bl_set (bl_new cs) (bl_get cs)) = length cs.
   Proof. unfold bl_set, bl_new, bl_get. rewrite map_length, combine_length, !map_length. apply Nat.min_id. Qed.
 End Wrappers.
+Arguments ds_get {C B E}. Arguments ds_set {C B E}. Arguments ds_new {C E}.
+Arguments bl_get {C B}. Arguments bl_set {C B}. Arguments bl_new {C}.
